@@ -4,7 +4,9 @@ import PngVerif.Driver.Framing
 /-! Line protocol for the `Reader` model (C02, C05, C09, C13, C18).
   `rdr run <opts> <limit|max> <flags 0..7> <filehex> <visible0> <ops>`
    ops (comma separated): `ri` read_info, `nf<hh>` next_frame into a buffer of the documented size pre-filled with byte hh,
-   `nr` next_row / next_interlaced_row, `rr` read_row (buffer of the documented size), `fi` next_frame_info, `fin` finish, `g<n>` n more bytes visible.
+   `nr` next_row / next_interlaced_row, `rr` read_row (buffer of the documented size), `fi` next_frame_info, `fin` finish, `g<n>` n more bytes visible;
+   getters (no state change; `err(parameter)` while no `Reader` exists): `obs` output_buffer_size(), `ols<w>` output_line_size(w), `rb` info().raw_bytes()
+   — answered `size(<n>)` or `PANIC(<site>)` (`Reader.outputBufferSizeGetter`, `outputLineSizeGetter`, `rawBytesGetter`).
   Answer: one token per op, then ` | <info> | rem=<remaining_frames> caf=<0|1> fin=<0|1>`. -/
 namespace Png.Driver
 open Png Png.Framing Png.Reader
@@ -82,6 +84,17 @@ def resStr : Res → String
   | .err c _ => s!"err({errClassStr c})"
   | .panic s => s!"PANIC({s})"
 
+def gresStr : GRes → String
+  | .value n => s!"size({n})"
+  | .panic s => s!"PANIC({s})"
+
+/-- a call of the protocol: an operation of the model, or a getter -/
+inductive RdrCall
+  | op (o : Op)
+  | outputBufferSize
+  | outputLineSize (w : Nat)
+  | rawBytes
+
 def parseRdrOp (s : String) : Option Op :=
   if s == "ri" then some .readInfo
   else if s == "rh" then some .readHeader
@@ -96,10 +109,16 @@ def parseRdrOp (s : String) : Option Op :=
   else if s.startsWith "g" then (s.drop 1).toString.toNat?.map .grow
   else none
 
+def parseRdrCall (s : String) : Option RdrCall :=
+  if s == "obs" then some .outputBufferSize
+  else if s == "rb" then some .rawBytes
+  else if s.startsWith "ols" then (s.drop 3).toString.toNat?.map .outputLineSize
+  else (parseRdrOp s).map .op
+
 def rdr (args : List String) (tOf : Flags → Option TCfg := fun _ => some realT) : String :=
   match args with
   | ["run", opts, limit, flags, file, vis, ops] =>
-    match parseOpts opts, (if limit == "max" then some (2 ^ 64 - 1) else limit.toNat?), flags.toNat?, parseHexL file, vis.toNat?, (ops.splitOn ",").mapM parseRdrOp with
+    match parseOpts opts, (if limit == "max" then some (2 ^ 64 - 1) else limit.toNat?), flags.toNat?, parseHexL file, vis.toNat?, (ops.splitOn ",").mapM parseRdrCall with
     | some o, some lim, some fl, some f, some v, some opl =>
       let flg : Flags := { expand := fl % 2 == 1, strip16 := (fl / 2) % 2 == 1, alpha := (fl / 4) % 2 == 1 }
       match tOf flg with
@@ -120,11 +139,17 @@ def rdr (args : List String) (tOf : Flags → Option TCfg := fun _ => some realT
           match r.dec.info, op with
           | some i, .nextFrame _ => r.isReader && i.interlaced && i.width * i.height * (outLineSize t i r.flags i.width * i.height) > 1073741824
           | _, _ => false
-        let (r, res) := opl.foldl (fun (acc : R × List String) op =>
+        let getter (r : R) (g : R → GRes) : String := if r.isReader then gresStr (g r) else "err(parameter)"
+        let (r, res) := opl.foldl (fun (acc : R × List String) call =>
             if acc.2.getLast? == some "tooslow" then acc
-            else if big acc.1 op then (acc.1, acc.2 ++ ["toolarge"])
-            else if slow acc.1 op then (acc.1, acc.2 ++ ["tooslow"])
-            else let (r', x) := Reader.step cfg t acc.1 op; (r', acc.2 ++ [resStr x])) (r0, [])
+            else match call with
+            | .outputBufferSize => (acc.1, acc.2 ++ [getter acc.1 (outputBufferSizeGetter t)])
+            | .outputLineSize w => (acc.1, acc.2 ++ [getter acc.1 (fun r => outputLineSizeGetter t r w)])
+            | .rawBytes => (acc.1, acc.2 ++ [getter acc.1 rawBytesGetter])
+            | .op op =>
+              if big acc.1 op then (acc.1, acc.2 ++ ["toolarge"])
+              else if slow acc.1 op then (acc.1, acc.2 ++ ["tooslow"])
+              else let (r', x) := Reader.step cfg t acc.1 op; (r', acc.2 ++ [resStr x])) (r0, [])
         s!"{" ".intercalate res} | {infoStr r.dec.info} | rem={r.remaining} caf={if r.sub.caf then 1 else 0} fin={if r.finished then 1 else 0}"
     | _, _, _, _, _, _ => "bad-op"
   | _ => "bad-op"
